@@ -234,6 +234,8 @@ def make_cases(rng, n_schemas: int, per_schema: int, depth: int = 3, foreign: in
         sg = gen.SchemaGen(rng, gen.GenOpts(depth=depth, coq_only=True, named=False))
         sg.tag = f"s{si}_"
         t = sg.gen_type()
+        if t.kind == "none":
+            t = gen.T("opt", [gen.T("int")])
         fam = sg.fam
         ns = fam.build()
         ty = gen.resolve(t, ns)
